@@ -2,7 +2,7 @@
    Only statements; proofs are `exact <lemma of BufOpsProofs>`. *)
 From Coq Require Import ZArith List Bool Lia.
 Import ListNotations.
-From XO Require Import BufOps BufOpsProofs.
+From XO Require Import BufOps BufOpsProofs BufOpsComplete.
 Open Scope Z_scope.
 
 (* every updating primitive (update_from_native / _buffer / _nplike / _xbuffer, writes
@@ -69,3 +69,14 @@ Print Assumptions C13_views_alias.
 Print Assumptions C13_copies_independent.
 Print Assumptions C13_grow_preserves.
 Print Assumptions C13_checker_sound.
+
+(* the judgement of an observed history is exact -- accepted if and only if the model reproduces every step --
+   and a rejection names the FIRST step that is not reproduced: everything before it conforms, and the step
+   itself does not, in the state the model reached (so the replay the check writes is a real first failure) *)
+Theorem C13_checker_exact : forall h s n, check_hist s n h = None <-> conforms s h.
+Proof. exact check_hist_exact. Qed.
+Theorem C13_rejection_names_first_failing_step : forall h s n k, check_hist s n h = Some k ->
+  exists pre st post, h = pre ++ st :: post /\ k = (n + length pre)%nat /\ conforms s pre /\ ~ conforms (after s pre) [st].
+Proof. exact check_hist_first_failure. Qed.
+Print Assumptions C13_checker_exact.
+Print Assumptions C13_rejection_names_first_failing_step.
